@@ -1333,6 +1333,14 @@ def oracle_c13_e2e(R):
             break
     if not bwv:
         return v
+    clean = all((r['outcome'] or {}).get('ok') and not delivered_for(R, r)
+                and not cancel_sources(R, r) for r in R.all_recs())
+    moved = getattr(R.sched, 'bw_moved', None)
+    if clean and moved is not None and R.sched.bw_consumed < moved:
+        v.append(('c13:e2e:moved-bytes-not-charged',
+                  f'{moved} bytes passed through bandwidth-limited streams '
+                  f'but only {R.sched.bw_consumed} were charged to the '
+                  f'bucket'))
     ev = []
     calls = set()
     for (step, tid, k, info) in R.trace.events:
@@ -1342,7 +1350,7 @@ def oracle_c13_e2e(R):
     ev.sort()
     if ev:
         largest = max(n for _, n in ev)
-        burst = 3 * (thr + largest) * max(1, len(calls))
+        burst = 3 * (thr + largest) * cfg_of(R)['max_request_concurrency']
         pre = [0]
         for _, n in ev:
             pre.append(pre[-1] + n)
